@@ -31,6 +31,27 @@ Proof.
   destruct Hin as [->|Hin]; [eapply NoDup_app_l; eauto | apply IH; [eapply NoDup_app_r; eauto | exact Hin]].
 Qed.
 
+Lemma fold_find id subs t :
+  fold_right (fun x acc => match find_id id x with Some r => Some r | None => acc end) None subs = Some t ->
+  exists x, In x subs /\ find_id id x = Some t.
+Proof.
+  induction subs as [|x subs IH]; cbn [fold_right]; intros H; [discriminate H|].
+  destruct (find_id id x) as [r|] eqn:F.
+  - injection H as <-. exists x. split; [left; reflexivity | exact F].
+  - destruct (IH H) as [y [Hy Fy]]. exists y. split; [right; exact Hy | exact Fy].
+Qed.
+
+Lemma find_id_sub id : forall n t, find_id id n = Some t -> sub t n.
+Proof.
+  induction n as [h subs IH|sl i|sl l] using node_ind'; intros t H; cbn [find_id] in H; try discriminate H.
+  assert (B : fold_right (fun x acc => match find_id id x with Some r => Some r | None => acc end) None subs = Some t -> sub t (Node h subs)).
+  { intros Hf. destruct (fold_find _ _ _ Hf) as [x [Hx Fx]]. rewrite Forall_forall in IH.
+    eapply sub_step; [exact Hx | apply IH; [exact Hx | exact Fx]]. }
+  destruct (h_id h) as [i|].
+  - destruct (hkey_eqb i id); [injection H as <-; apply sub_refl | apply B; exact H].
+  - apply B; exact H.
+Qed.
+
 Section Complete.
   Variable E : env.
   Variable T : trust.
@@ -116,4 +137,71 @@ Proof.
   eapply (unsafe_g_complete E None t0 unsafe_fuel [] t0 u U); eauto.
   - apply wf_leafy. eapply root_tree_wf; eauto.
   - eapply root_tree_ids_unique; eauto.
+Qed.
+
+(* ... and nothing else is reported: every reported name is the contribution of a node of the tree
+   (references resolve to nodes of the tree) *)
+Lemma leaf_unsafe_nil l u : leaf_unsafe l = Ok u -> u = [].
+Proof.
+  destruct l as [| |j| |]; cbn [leaf_unsafe]; try (intros X; injection X as <-; reflexivity).
+  destruct j as [| | | | |[|]|[|]]; intros X; try discriminate X; injection X as <-; reflexivity.
+Qed.
+
+Lemma unsafe_g_sound E T root : forall fuel path n u,
+  sub n root -> unsafe_g E T root fuel path n = Ok u ->
+  forall nm, In nm u -> exists x, sub x root /\ contributes E T x nm.
+Proof.
+  induction fuel as [|fuel IH]; intros path n u Hs H nm Hin; [discriminate H|].
+  cbn [unsafe_g] in H. destruct n as [h subs|sl id|sl l].
+  - destruct (ukind_of (h_kind h)) eqn:UK.
+    + injection H as <-. contradiction.
+    + exists (Node h subs). split; [exact Hs|]. cbn [contributes]. rewrite UK. eauto.
+    + destruct (on_path h path); [injection H as <-; contradiction|].
+      destruct (own_unsafe E T h) as [own|] eqn:O; cbn [bind] in H; [|discriminate H].
+      destruct (concat_res _) as [rest|] eqn:C; cbn [bind] in H; [|discriminate H].
+      injection H as <-. apply in_app_or in Hin as [Hin|Hin].
+      * exists (Node h subs). split; [exact Hs|]. cbn [contributes]. rewrite UK. eauto.
+      * destruct (concat_res_In_inv _ _ _ _ C Hin) as [x [a [Hx [Ha Hy]]]].
+        eapply (IH _ x a); eauto. eapply sub_child; eauto.
+  - destruct (find_id id root) as [target|] eqn:F; [|discriminate H].
+    eapply (IH _ target u); eauto. eapply find_id_sub; eauto.
+  - apply leaf_unsafe_nil in H. subst. contradiction.
+Qed.
+
+(* get_untrusted_types reports EXACTLY the audited names of the nodes of the tree that do not trust them *)
+Theorem report_exact E schema G :
+  get_untrusted_types E schema = Ok G ->
+  exists t m, root_tree E schema = Ok (t, m) /\
+    forall nm, In nm G <-> exists x, sub x t /\ contributes E None x nm.
+Proof.
+  intros HG. destruct (report_complete E schema G HG) as [t [m [RT Hc]]]. exists t, m. split; [exact RT|].
+  intros nm. split.
+  - revert HG. unfold get_untrusted_types. rewrite RT. cbn [bind]. unfold untrusted_of.
+    destruct (unsafe E None t t) as [u|] eqn:U; cbn [bind]; [|intros X; discriminate X].
+    intros X; injection X as <-. intros Hin. apply -> sort_dedup_In in Hin.
+    unfold unsafe in U. eapply unsafe_g_sound; eauto. apply sub_refl.
+  - intros [x [Hs Hx]]. eapply Hc; eauto.
+Qed.
+
+Lemma sub_nodup n r : sub n r -> NoDup (ids r) -> NoDup (ids n).
+Proof.
+  intros H. induction H as [|h subs x Hx Hs IH]; intros ND; [exact ND|].
+  apply IH. cbn [ids] in ND. eapply NoDup_flat_map_elem; [eapply NoDup_app_r; eauto | exact Hx].
+Qed.
+
+Lemma sub_leafy n r : sub n r -> leafy r = true -> leafy n = true.
+Proof.
+  intros H. induction H as [|h subs x Hx Hs IH]; intros L; [exact L|].
+  apply IH. cbn [leafy] in L. apply andb_true_iff in L as [_ L]. rewrite forallb_forall in L. apply L. exact Hx.
+Qed.
+
+(* a node whose own audit is empty has no untrusting node anywhere in its subtree (visualize's is_safe flag) *)
+Theorem clean_audit_means_clean_subtree E schema T t m n :
+  root_tree E schema = Ok (t, m) -> sub n t -> unsafe E T t n = Ok [] ->
+  forall x nm, sub x n -> contributes E T x nm -> False.
+Proof.
+  intros RT Hs U x nm Hx Hc. unfold unsafe in U.
+  eapply (unsafe_g_complete E T t unsafe_fuel [] n [] U); eauto.
+  - eapply sub_leafy; [exact Hs|]. apply wf_leafy. eapply root_tree_wf; eauto.
+  - eapply sub_nodup; [exact Hs|]. eapply root_tree_ids_unique; eauto.
 Qed.
